@@ -15,13 +15,25 @@ while [ $# -gt 0 ]; do
   esac
 done
 mkdir -p .build
-if ! go test -c -tags verif -o .build/$ID.test $PKG 2>.build/$ID.buildlog; then
+GO=go; TAGS=verif
+if [ "${VERIF_INTRA:-0}" = 1 ]; then
+  # intra-instruction scheduling points: go1.26.8 + the reflect overlay (chanpoints/gen.sh, sched/intra_on.go)
+  chanpoints/gen.sh >/dev/null || { echo "HARNESS-ERROR: reflect overlay generation failed" >&2; exit 2; }
+  OV=.build/chanpoints/overlay.json
+  if [ -n "${VERIF_OVERLAY:-}" ]; then
+    python3 -c "import json,sys;a=json.load(open('.build/chanpoints/overlay.json'));b=json.load(open(sys.argv[1]));a['Replace'].update(b['Replace']);json.dump(a,open('.build/chanpoints/overlay.$ID.json','w'))" "$VERIF_OVERLAY" || exit 2
+    OV=.build/chanpoints/overlay.$ID.json
+  fi
+  export GOTOOLCHAIN=local GOFLAGS="-mod=mod -overlay=$PWD/$OV"
+  GO=/opt/veriftools/go1.26.8/bin/go; TAGS=verif,verifreflect
+fi
+if ! $GO test -c -tags $TAGS -o .build/$ID.test $PKG 2>.build/$ID.buildlog; then
   cat .build/$ID.buildlog >&2
   echo "HARNESS-ERROR: build of $ID against /repo's working tree failed" >&2
   exit 2
 fi
 if [ "$RACE" = 1 ] && [ -z "$replay" ]; then
-  if ! go test -c -race -tags verif -o .build/$ID.race.test $PKG 2>.build/$ID.race.buildlog; then
+  if ! $GO test -c -race -tags $TAGS -o .build/$ID.race.test $PKG 2>.build/$ID.race.buildlog; then
     cat .build/$ID.race.buildlog >&2
     echo "HARNESS-ERROR: -race build of $ID failed" >&2
     exit 2
